@@ -1598,6 +1598,106 @@ def fuse_comprehension_loops(fn) -> int:
     return done
 
 
+def fuse_tuple_comprehensions(fn) -> int:
+    """L = [(e1, .., en) for T in S if c]      (L a name the original function does not have, used exactly once)
+       ... [f(p1, .., pn) for p1, .., pn in L if d] ...
+    ->     ... [f(e1, .., en) for T in S if c if d(e1, .., en)] ...
+    A list of tuples that only feeds one unpacking comprehension is the same iteration with the projections written in place."""
+    import copy
+
+    is_new = new_local_predicate(fn)
+    done = 0
+    for node in [fn] + list(ast.walk(fn)):
+        for attr in ("body", "orelse", "finalbody"):
+            blk = getattr(node, attr, None)
+            if not isinstance(blk, list):
+                continue
+            i = 0
+            while i < len(blk):
+                st = blk[i]
+                i += 1
+                if not (isinstance(st, ast.Assign) and len(st.targets) == 1 and isinstance(st.targets[0], ast.Name) and isinstance(st.value, (ast.ListComp, ast.GeneratorExp))
+                        and len(st.value.generators) == 1 and not st.value.generators[0].is_async and isinstance(st.value.elt, ast.Tuple)
+                        and not any(isinstance(x, ast.Starred) for x in st.value.elt.elts)):
+                    continue
+                name = st.targets[0].id
+                if not is_new(name):
+                    continue
+                uses = [x for x in ast.walk(fn) if isinstance(x, ast.Name) and x.id == name]
+                if len(uses) != 2:
+                    continue
+                pos = blk.index(st)
+                cons = None
+                for s2 in blk[pos + 1:]:
+                    for comp in ast.walk(s2):
+                        if isinstance(comp, (ast.ListComp, ast.GeneratorExp, ast.SetComp, ast.DictComp)):
+                            for gi, g in enumerate(comp.generators):
+                                if isinstance(g.iter, ast.Name) and g.iter.id == name:
+                                    cons = (s2, comp, gi)
+                    if cons:
+                        break
+                if not cons:
+                    continue
+                s2, comp, gi = cons
+                g = comp.generators[gi]
+                src = st.value.generators[0]
+                if gi != 0 or not (isinstance(g.target, ast.Tuple) and all(isinstance(t, ast.Name) for t in g.target.elts) and len(g.target.elts) == len(st.value.elt.elts)):
+                    continue
+                # evaluated once on both sides: the consumer is not inside the body of a loop (or a nested function) of its statement
+                x, okpos = comp, True
+                while x is not s2:
+                    par = getattr(x, "_parent", None)
+                    if par is None:
+                        okpos = False
+                        break
+                    if isinstance(par, (ast.FunctionDef, ast.AsyncFunctionDef, ast.Lambda, ast.While)) or (isinstance(par, (ast.For, ast.comprehension)) and x is not par.iter) \
+                            or (isinstance(par, (ast.ListComp, ast.GeneratorExp, ast.SetComp, ast.DictComp)) and not (par.generators and x is par.generators[0])
+                                and not (isinstance(x, ast.comprehension) and x is par.generators[0])):
+                        okpos = False
+                        break
+                    x = par
+                if not okpos:
+                    continue
+                between = blk[pos + 1: blk.index(s2)]
+                inv = {x.id for x in ast.walk(st.value) if isinstance(x, ast.Name)} | {name}
+                if any({x.id for x in ast.walk(b) if isinstance(x, ast.Name)} & inv for b in between):
+                    continue
+                bound = {x.id for x in ast.walk(src.target) if isinstance(x, ast.Name)}
+                params = [t.id for t in g.target.elts]
+                other = {x.id for part in ([comp.elt] if not isinstance(comp, ast.DictComp) else [comp.key, comp.value]) + g.ifs + comp.generators[1:]
+                         for x in ast.walk(part) if isinstance(x, ast.Name)} - set(params)
+                if bound & other or len(set(params)) != len(params):
+                    continue
+                mp = dict(zip(params, st.value.elt.elts))
+
+                class Sub(ast.NodeTransformer):
+                    def visit_Name(self, n):
+                        if isinstance(n.ctx, ast.Load) and n.id in mp:
+                            return ast.copy_location(copy.deepcopy(mp[n.id]), n)
+                        return n
+
+                sub = Sub()
+                if isinstance(comp, ast.DictComp):
+                    comp.key, comp.value = sub.visit(comp.key), sub.visit(comp.value)
+                else:
+                    comp.elt = sub.visit(comp.elt)
+                g.ifs = list(src.ifs) + [sub.visit(c) for c in g.ifs]
+                for g2 in comp.generators[1:]:
+                    g2.iter = sub.visit(g2.iter)
+                    g2.ifs = [sub.visit(c) for c in g2.ifs]
+                g.target, g.iter = src.target, src.iter
+                blk.remove(st)
+                i = 0
+                ast.fix_missing_locations(s2)
+                for x in ast.walk(s2):
+                    if not hasattr(x, "_module") and hasattr(s2, "_module"):
+                        x._module = s2._module
+                    for child in ast.iter_child_nodes(x):
+                        child._parent = x
+                done += 1
+    return done
+
+
 def run(prog) -> int:
     from .inline import relink
 
@@ -1627,6 +1727,7 @@ def run(prog) -> int:
                     changed += 1 + substitute_function(node)
                 if fuse_comprehension_loops(node):
                     changed += 1 + substitute_function(node)
+                changed += fuse_tuple_comprehensions(node)
                 changed += restore_temp_names(node)
         total += changed
         if changed:
